@@ -436,10 +436,10 @@ class Interp:
             return [x.value for x in node.elts]
         if isinstance(node, ast.Name):
             v = env.get(node.id)
-            if isinstance(v, C) and isinstance(v.v, (list, tuple)):
+            if isinstance(v, C) and isinstance(v.v, (list, tuple, dict, set, frozenset)):
                 return list(v.v)
-            if node.id not in env and node.id in self.consts and isinstance(self.consts[node.id], (list, tuple)):
-                return list(self.consts[node.id])
+            if node.id not in env and node.id in self.consts and isinstance(self.consts[node.id], (list, tuple, dict, set, frozenset)):
+                return list(self.consts[node.id])      # membership in a dict is membership in its keys
         return None
 
     # ---- expressions: list of (value, env, inp)
